@@ -20,6 +20,7 @@ import (
 func (e *Engine) resetPoolModel() {
 	for _, m := range e.all {
 		m.Accepted = false
+		m.MaybeGood = false
 	}
 	e.live = map[common.Address]map[uint64][]*MTx{}
 	e.held = map[common.Address]map[common.Hash]*MTx{}
@@ -225,7 +226,10 @@ func (e *Engine) CrashCommit(t *kernel.Tape) string {
 	e.refreshOffer()
 	b, site, msg, panicked := e.W.Propose(e.W.MaxTxs(), nil, false)
 	if panicked {
-		e.Violate("offer-not-executable", "offer-not-executable/"+site, "a block built by CreateBlock+PreRunBlock from the mempool's offer did not execute: %s (%s)", msg, e.describe(b))
+		key, detail := e.notExecKey(site, b)
+		if !e.Violate("offer-not-executable", key, "a block built by CreateBlock+PreRunBlock from the mempool's offer did not execute: %s (%s) %s", msg, e.describe(b), detail) {
+			e.flushPool()
+		}
 		return ""
 	}
 	label, where := "", ""
